@@ -30,6 +30,7 @@ type c11matrix struct {
 	Dims  []string            `json:"dims"`
 	Setup map[string][]string `json:"setup"`
 	Adjs  []c11adj            `json:"adjustments"`
+	canon string
 }
 
 type c11case struct {
@@ -203,7 +204,14 @@ func c11judge(c c11case) (kind, detail string, accepted bool) {
 		mp = nil
 	}
 	before := snap.Deep(&st)
-	jb, _ := json.Marshal(st)
+	// The step is rebuilt identically for every permutation of one matrix:
+	// its JSON before the call is computed once per (matrix, via).
+	jbKey := c.Via + c11mcanon(c.M)
+	if c11jbKey != jbKey {
+		b, _ := json.Marshal(st)
+		c11jbKey, c11jbVal = jbKey, string(b)
+	}
+	jb := c11jbVal
 	var err error
 	if pan := report.Catch(func() { err = st.InterpolateMatrixPermutation(mp) }); pan != "" {
 		return "panic", pan, false
@@ -259,9 +267,43 @@ func c11subsets(dims []string, vals []string, f func(map[string]string)) {
 	}
 }
 
+var c11jbKey, c11jbVal string
+var c11mcKey *c11matrix
+var c11mcVal string
+
+func c11mcanon(m c11matrix) string {
+	if m.canon != "" {
+		return m.canon
+	}
+	b, _ := json.Marshal(m)
+	return string(b)
+}
+
 func c11canon(c c11case) string {
 	b, _ := json.Marshal(c)
 	return string(b)
+}
+
+// c11fastCanon is a cheap canonical key for sharding/deduplication.
+func c11fastCanon(mc string, c c11case) string {
+	ks := make([]string, 0, len(c.Perm))
+	for k := range c.Perm {
+		ks = append(ks, k)
+	}
+	sort.Strings(ks)
+	var b strings.Builder
+	b.WriteString(mc)
+	b.WriteString(c.Via)
+	if c.Perm == nil {
+		b.WriteString("<nilperm>")
+	}
+	for _, k := range ks {
+		b.WriteString(k)
+		b.WriteByte('=')
+		b.WriteString(c.Perm[k])
+		b.WriteByte(';')
+	}
+	return b.String()
 }
 
 func c11adjOptions(dims []string, vals []string, skips []any) []c11adj {
@@ -335,7 +377,8 @@ func c11run(w *report.W) {
 		scopes = append(scopes, scope{[]string{"os", "arch", "v"}, 1, [][]string{{}, {"a", "b"}}, []string{"a", "c"}, 0})
 	}
 	run := func(c c11case) {
-		if !w.Take(c11canon(c)) {
+		lastMC := c11mcanon(c.M)
+		if !w.Take(c11fastCanon(lastMC, c)) {
 			return
 		}
 		w.P.Evaluations++
@@ -387,6 +430,7 @@ func c11run(w *report.W) {
 			}
 			for _, adjs := range adjSets {
 				m := c11matrix{Dims: sc.dims, Setup: setup, Adjs: adjs}
+				m.canon = c11mcanon(m)
 				vias := []string{"direct"}
 				if len(adjs) <= sc.parsedMax {
 					vias = append(vias, "parsed")
